@@ -226,7 +226,14 @@ def histories(draw, viewers=False, residents=False, inc_ok=False,
                 'name': 'V%d' % i,
                 'port_on': draw(st.sampled_from(PORTS)),
                 'vars': draw(st.sampled_from([['x'], ['x', 'y'], ['y']])),
-                'ts': draw(st.sampled_from([1.0, 1.0, 2.0, 1.5, 0.5]))})
+                'ts': draw(st.sampled_from([1.0, 1.0, 2.0, 1.5, 0.5])),
+                # viewer as a step: in the operator's layer ('free'), in a
+                # later layer ('after': depends on the operator step or, when
+                # the operator is a process, on the previous viewer step), or
+                # as a flow-less deriver ('deriver')
+                'as_step': draw(st.sampled_from(
+                    [None, None, None, 'free', 'after', 'after',
+                     'deriver']))})
     return spec
 
 
@@ -259,12 +266,27 @@ def build(spec, ctx, parallel_names=()):
         processes[op] = kit.OpProcess({'name': op, 'run_id': ctx.run_id,
                                        'script': copy.deepcopy(spec['ticks'])})
     topology[op] = dict(kit.OP_TOPOLOGY)
+    prev_step = op if spec['op_is_step'] else None
     for v in spec['viewers']:
         sub = {var: copy.deepcopy(kit.SUB_SCHEMA[var]) for var in v['vars']}
-        processes[v['name']] = kit.WireProcess({
-            'name': v['name'], 'run_id': ctx.run_id,
-            'schema': {'view': {'*': sub}}, 'update': {},
-            'time_step': v['ts']})
+        params = {'name': v['name'], 'run_id': ctx.run_id,
+                  'schema': {'view': {'*': sub}}, 'update': {},
+                  'time_step': v['ts']}
+        how = v.get('as_step')
+        if how:
+            steps[v['name']] = kit.WireStep(params)
+            if how == 'free' or (how == 'after' and prev_step is None):
+                flow[v['name']] = []
+            elif how == 'after':
+                flow[v['name']] = [(prev_step,)]
+            if how != 'deriver':
+                prev_step = v['name']
+            if 'TK' not in processes:
+                processes['TK'] = kit.TickProcess({
+                    'name': 'TK', 'run_id': ctx.run_id, 'time_step': 1.0})
+                topology['TK'] = {'clock': ('clock',)}
+        else:
+            processes[v['name']] = kit.WireProcess(params)
         topology[v['name']] = {'view': ref.PORT_PATH[v['port_on']]}
     state = {'G1': {'perm': {'sub': {}}}, 'G2': {}}
     for port in PORTS:
@@ -516,6 +538,10 @@ def run_views(spec, res):
                     and ev[1] in viewers:
                 v = viewers[ev[1]]
                 states, whole = ev[5], ev[6]
+                if whole is None:
+                    continue      # the construction phase: no engine yet
+                if v.get('as_step'):
+                    res.label('viewer_step.' + v['as_step'])
                 coll = getp(whole, list(ref.PORT_PATH[v['port_on']]), {})
                 want = {}
                 for child, cval in coll.items():
